@@ -31,30 +31,32 @@ type Item struct {
 }
 
 type VC struct {
-	e        *Engine
-	fn       *ssa.Function
-	c        *Contract
-	decls    []string
-	items    []Item
-	nfresh   int
-	vals     map[ssa.Value]*Val
-	heap0    *Heap
-	globals  map[*ssa.Global]string
-	strlits  map[string]string
-	obCount  map[string]int
-	obs      []*Obligation
-	notes    []string // unsupported / abstracted constructs
-	loops    map[*ssa.BasicBlock]*loopInfo
-	paramEnv map[string]*Val
-	cur      *blockCtx
-	dropped  map[string]bool // houdini: dropped candidate keys
-	inputs   []inputDesc     // for replay
-	consts   []constFact
-	trusted  map[string]bool
-	callees  map[string]bool
-	intMode  bool
-	rs       *runState
-	paramVals []*Val
+	e          *Engine
+	fn         *ssa.Function
+	c          *Contract
+	decls      []string
+	items      []Item
+	nfresh     int
+	vals       map[ssa.Value]*Val
+	heap0      *Heap
+	globals    map[*ssa.Global]string
+	strlits    map[string]string
+	obCount    map[string]int
+	obs        []*Obligation
+	notes      []string // unsupported / abstracted constructs
+	loops      map[*ssa.BasicBlock]*loopInfo
+	paramEnv   map[string]*Val
+	cur        *blockCtx
+	dropped    map[string]bool // houdini: dropped candidate keys
+	inputs     []inputDesc     // for replay
+	consts     []constFact
+	trusted    map[string]bool
+	callees    map[string]bool
+	intMode    bool
+	rs         *runState
+	csHit      map[*CallSite]bool
+	obReturn   map[*Obligation]*ssa.Return
+	paramVals  []*Val
 	entryItems int
 }
 
@@ -77,11 +79,11 @@ type blockCtx struct {
 }
 
 type loopInfo struct {
-	head   *ssa.BasicBlock
-	blocks map[*ssa.BasicBlock]bool
-	ord    int // ordinal of for statement in source order (1-based), 0 unknown
-	pos    token.Pos
-	invs   []*loopInv
+	head     *ssa.BasicBlock
+	blocks   map[*ssa.BasicBlock]bool
+	ord      int // ordinal of for statement in source order (1-based), 0 unknown
+	pos      token.Pos
+	invs     []*loopInv
 	headHeap *Heap
 }
 
@@ -393,7 +395,8 @@ func (vc *VC) assumeWF(v *Val, h *Heap) {
 func (vc *VC) wfTerm(v *Val, h *Heap) string {
 	switch v.K {
 	case KPtr:
-		return sAnd(app("<=", "0", v.C[0]), app("<", v.C[0], h.alloc), app("bvule", v.C[1], maxCells))
+		return sAnd(app("<=", "0", v.C[0]), app("<", v.C[0], h.alloc), app("bvule", v.C[1], maxCells),
+			app("=>", app("=", v.C[0], "0"), app("=", v.C[1], off64(0))))
 	case KSlice:
 		return sAnd(app("<=", "0", v.C[0]), app("<", v.C[0], h.alloc),
 			app("bvule", v.C[1], maxCells), app("bvule", v.C[2], v.C[3]), app("bvule", v.C[3], maxCells),
@@ -403,7 +406,7 @@ func (vc *VC) wfTerm(v *Val, h *Heap) string {
 			app("bvule", v.C[1], maxCells), app("bvule", v.C[2], maxCells))
 	case KIface:
 		return sAnd(app("<=", "0", v.C[0]), app("<=", "0", v.C[1]), app("<", v.C[1], h.alloc),
-			app("=>", app("=", v.C[0], "0"), app("=", v.C[1], "0")))
+			app("=>", app("=", v.C[0], "0"), sAnd(app("=", v.C[1], "0"), app("=", v.C[2], off64(0)))))
 	}
 	return "true"
 }
